@@ -33,7 +33,7 @@ def norm_type(t):
 # option codes / data lengths / padding codes per option-bearing class (option histories)
 OPT_POOLS = {
     'TCP': ([2, 3, 4, 8, 30, 254], [0, 1, 2, 4, 8, 10], {0, 1}),
-    'IP': ([7, 0x87, 0x44, 0x83, 0x94, 0x07 | 0x60], [0, 1, 2, 3, 6, 10], {0, 1}),
+    'IP': ([7, 0x87, 0x44, 0x83, 0x94, 0x07 | 0x60, 0, 1, 0, 1], [0, 1, 2, 3, 6, 10], {0, 1}),       # END / NOP added through the API too, anywhere in the list
     'DHCP': ([1, 3, 6, 12, 51, 53, 60, 61, 250, 0, 255], [0, 1, 4, 9, 253, 254, 255], {0, 255}),
     'DHCPv6': ([1, 2, 6, 8, 16, 100], [0, 1, 2, 8, 300], set()),
     'ICMPv6': ([1, 2, 3, 5, 14, 25, 100], [6, 14, 22], set()),
@@ -318,7 +318,10 @@ def run(ctx):
                 n = base + len(steps)
                 if len(lh) > n + 1 and lh[n].startswith('S ') and lh[n + 1].startswith('Q '):
                     back = [o for o in (opts_of(lh[n + 1]) or []) if o[0] not in pad]
-                    final = [o for o in (steps[-1][1] if steps else []) if o[0] not in pad]
+                    full = list(steps[-1][1] if steps else [])
+                    if cls in ('IP', 'TCP') and any(o[0] == 0 for o in full):
+                        full = full[:next(j for j, o in enumerate(full) if o[0] == 0)]       # End of Option List: a reader stops there
+                    final = [o for o in full if o[0] not in pad]
                     if back != final:
                         bad = '%s: options %s come back from the wire as %s' % (cls, [(c, len(d)) for c, d in final][:8], [(c, len(d)) for c, d in back][:8])
                     else:
